@@ -177,7 +177,7 @@ def gen_range(rng, width):
         y = rng.randrange(x, w) if rng.random() < 0.85 else x + rng.randrange(w + 3)
         return ("fromto", x, y)
     if r < 0.60:
-        return ("from", rng.randrange(w + 1) if rng.random() < 0.9 else w)
+        return ("from", rng.randrange(w + 1) if rng.random() < 0.85 else w + rng.randrange(4))
     if r < 0.75:
         x = rng.randrange(w) if rng.random() < 0.85 else w + rng.randrange(3)
         return ("wrap", x, rng.choice([0, 1, 1, 2, 3, w, w + 1, 2 * w + 1]))
@@ -373,6 +373,7 @@ HOSTILE_LOCS = [
     "0x", "0xg", "0x,", ",", "0x1,,0x2", "1-", "-1", "1-0", "0-1,", "f...f", "0xf...f", "0xf...f,", "0xf...f,0xf...f",
     "99999999999999999999:0", "4294967295:0", "4294967293:0", "4294967292:0", "-1:0", "+1:0", " 1:0", "0x1:0", "01:0",
     "pu:4294967296", "pu:4294967297", "pu:0-4294967295", "pu:99999999999999999999", "pu:0:4294967297",
+    "pu:3-0", "pu:3-1", "pu:3-2", "pu:0:-1", "pu:0:-5", "pu:99-", "core:7-.pu:0", "pu:1:0", "pu=2-", "pu=1-0",
     "a" * 20 + ":0", "a" * 21 + ":0", "core:" + "1" * 64, "core:" + "1" * 65, "core:0." + "b" * 30 + ":0",
     "pu:all.core:0", "pu:0.machine:0", "core:allx", "core:oddity", "core:evenmore", "core:al", "pu:0.pu:0.pu:0.pu:0.pu:0",
     "l9:0", "l0:0", "l1x:0", "group9:0", "group:0", "gr:0", "L2:all", "\xe0\xe0:0", "pu\xe0:0", "root:0", "all:0", "machine:all.all",
